@@ -12,7 +12,7 @@ from vf.world import sut
 RULE = (
     "Hypothesis rule-based machine over 2 HeavyHitters sketches (width 1..8, depth 1..3, max_key_len 2..8, NUL-alias key universe), rules "
     "add/update(list|dict)/add_ngram/merge/save_load interleaved with query(i,k,t), k in {1,2,3,10^9}, t in {None,0,1,2..10,2^32-1}, and "
-    "requery (the same arguments again, then a different threshold, then the first again: cache hit and miss paths). Oracle per query, "
+    "requery (the same arguments again, then a different threshold, then the first again: cache hit and miss paths) and cross_query (X, then another sketch Y, then X again). Directed grid: for phi in {0.01..0.99} (width 64) and default phi = 1/width for width 2..199, every n_added in 1..200 (thorough 600): a key holding exactly floor(phi*n_added) must be in query(). Oracle per query, "
     "evaluated on the answer obtained FIRST, before any helper call touches the sketch: length <= k; keys distinct; counts non-increasing; "
     "each count == hh[key] and >= effective threshold (floor(phi*n_added) for None); counts == first k counts of query(10^9,t); every model "
     "key with hh[key] >= max(threshold,1) is in the unbounded answer; and the answer equals (as count sequence and, for k=inf, as a multiset of pairs) "
@@ -128,6 +128,16 @@ def _threshold_walk(self, i, k, t1, t2, t3):
         self.do({"op": "query", "i": i % self.N, "k": k, "t": t})
 
 
+@rule(i=machines.SK, k=KS, t=TS, t2=TS)
+def _cross_query(self, i, k, t, t2):
+    """query X, then another sketch object Y, then X again with the same arguments (cache-hit path of X)"""
+    i = i % self.N
+    j = (i + 1) % self.N
+    self.do({"op": "query", "i": i, "k": k, "t": t})
+    self.do({"op": "query", "i": j, "k": k, "t": t2})
+    self.do({"op": "query", "i": i, "k": k, "t": t})
+
+
 def _patched_world_apply():
     """World does not know the 'query' op (it changes no model state): make it a no-op there."""
     from vf.world import World
@@ -152,17 +162,75 @@ def _shard(arg):
     holder = {}
     M = machines.make_machine(
         "C13Machine", QueryChecker, rec, holder, CFG=CFG, N=2, VALUES=VALUES, MAXKEY=11, draw_universe=_draw_universe,
-        query=_query, requery=_requery, threshold_walk=_threshold_walk,
+        query=_query, requery=_requery, threshold_walk=_threshold_walk, cross_query=_cross_query,
     )
     common.run_machine(M, common.derive_seed(seed, "C13", shard), n_examples, steps, holder, rec)
     return rec
 
 
+def _threshold_grid(arg):
+    """Directed: the default threshold is floor(phi*n_added) for EVERY (phi, n): for a grid of phi values
+    (explicit, and default 1/width) and every n in 1..N a key holding exactly that count must be reported."""
+    import math
+
+    from vf.world import CELLMAP
+    from sketchnu.heavyhitters import HeavyHitters
+
+    lo, hi, N = arg
+    rec = common.Recorder()
+    cfgs = [("explicit", round(0.01 * t, 2)) for t in range(lo, hi)] + [("default", w) for w in range(max(lo, 2), hi)]
+    for mode, val in cfgs:
+        width = 64 if mode == "explicit" else val
+        phi = val if mode == "explicit" else None
+        if mode == "explicit" and not (0.0 < phi < 1.0):
+            continue
+        cfg = {"kind": "hh", "width": width, "depth": 1, "max_key_len": 4, "phi": phi}
+        # two keys that own different cells
+        a = b"A"
+        b = next(k for k in (b"B", b"C", b"D", b"E", b"F", b"G", b"H", b"I") if width == 1 or CELLMAP.cells(cfg, k) != CELLMAP.cells(cfg, a))
+        p = float(phi) if phi is not None else float(1.0 / float(width))
+        count = nt = 0
+        for n in range(1, N + 1):
+            te = int(math.floor(p * float(n)))
+            if te < 1 or n - te < 0 or (width == 1 and n - te > 0):
+                continue
+            sk = HeavyHitters(width, 1, 4, phi)
+            sk.add(a, te)
+            if n - te:
+                sk.add(b, n - te)
+            got = sut(sk.query, 10**9)
+            count += 1
+            prod = p * float(n)
+            near = prod - math.floor(prod) > 1 - 1e-6 or prod - math.floor(prod) < 1e-6
+            nt += near
+            keys = {k for k, _ in got}
+            case = {"grid": True, "mode": mode, "value": val, "n": n, "width": width}
+            if a not in keys:
+                rec.violation(case, f"HeavyHitters(width={width}, phi={phi}) with n_added={n}: key with count {te} == floor(phi*n_added) (phi*n = {prod!r}) is missing from query(): {got}", "default-threshold")
+                rec.bulk(count, nt)
+                return rec
+            if any(int(c) < te for _, c in got):
+                rec.violation(case, f"HeavyHitters(width={width}, phi={phi}) n_added={n}: query() returned a count below the default threshold {te}: {got}", "below-threshold")
+                rec.bulk(count, nt)
+                return rec
+        rec.bulk(count, nt, {"grid": True, "mode": mode, "value": val, "n_max": N}, {"threshold_grid_cases": count})
+    return rec
+
+
 def run(tier, seed, rec):
+    N = 200 if tier == "quick" else 600
+    common.pool_merge(_threshold_grid, [(lo, min(lo + 13, 100), N) for lo in range(1, 100, 13)] + [(lo, lo + 25, N) for lo in range(100, 200, 25)], rec)
     n_ex, steps, shards = (100, 40, 16) if tier == "quick" else (500, 50, 32)
     common.pool_merge(_shard, [(seed, i, n_ex, steps) for i in range(shards)], rec)
 
 
 def replay(case):
+    if case.get("grid"):
+        v = case["value"]
+        lo = int(round(v * 100)) if case["mode"] == "explicit" else v
+        r = _threshold_grid((lo, lo + 1, max(case.get("n", 200), 200)))
+        if r.violations:
+            raise Violation(r.violations[0]["msg"], r.violations[0]["signature"])
+        return
     _patched_world_apply()
     machines.replay_trace(case, QueryChecker)
